@@ -12,7 +12,7 @@
 
 namespace {
 
-enum { OP_ACQ = 1, OP_CALLOC, OP_REALLOC, OP_REL, OP_SEND, OP_RECV, OP_CHECKPOINT, OP_YIELD, OP_REALLOC_NULL, OP_REL_BURST };
+enum { OP_ACQ = 1, OP_CALLOC, OP_REALLOC, OP_REL, OP_SEND, OP_RECV, OP_CHECKPOINT, OP_YIELD, OP_REALLOC_NULL, OP_REL_BURST, OP_BULK };
 static const size_t PAGE = 4096;
 static const int MAXW = 4;
 
@@ -181,6 +181,20 @@ void run_worker(Ctx &c, int idx) {
                 w.own.erase(w.own.begin() + (long)i);
                 aws_mem_release(c.sba, b.p);
                 c.ops_done++;
+                break;
+            }
+            case OP_BULK: {
+                // many live blocks of one class: more than 16 full pages per bin (the page list has to grow) and free lists
+                // beyond their initial capacity
+                size_t n = (size_t)op.a, sz = (size_t)op.b; if (!sz) sz = 1;
+                for (size_t k = 0; k < n; k++) {
+                    uint8_t *p = (uint8_t *)aws_mem_acquire(c.sba, sz);
+                    check_new_block(c, p, sz, "acquire (bulk)");
+                    w.own.push_back(place(c, p, sz));
+                }
+                c.ops_done += n;
+                sim::probe("bulk_allocation_phase");
+                if (sim::live_pages().size() > 17) sim::probe("more_than_17_pages_live");
                 break;
             }
             case OP_REL_BURST: {
@@ -393,6 +407,19 @@ void gen(uint64_t seed, int tier, sim::Plan &p) {
         }
         if (nw > 1) { sim::Op rv; rv.thr = t; rv.kind = OP_RECV; p.ops.push_back(rv); }
     }
+    if (r.chance(tier ? 0.06 : 0.03)) {
+        // scale run: more than 16 full pages in one class, then bursts of releases and an exact check
+        int t = (int)r.range(1, nw);
+        sim::Op b; b.thr = t; b.kind = OP_BULK;
+        if (r.chance(0.6)) { b.b = r.pick(std::vector<int64_t>{257, 400, 512}); b.a = r.range(125, 180); }
+        else if (r.chance(0.5)) { b.b = r.pick(std::vector<int64_t>{129, 200, 256}); b.a = r.range(260, 330); }
+        else { b.b = r.pick(std::vector<int64_t>{1, 20, 32}); b.a = r.range(2100, 2300); }
+        p.ops.insert(p.ops.begin() + (long)r.below(p.ops.size() + 1), b);
+        sim::Op cp; cp.thr = t; cp.kind = OP_CHECKPOINT; p.ops.push_back(cp);
+        sim::Op rb; rb.thr = t; rb.kind = OP_REL_BURST; rb.a = r.range(50, 400); p.ops.push_back(rb);
+        sim::Op cp2; cp2.thr = t; cp2.kind = OP_CHECKPOINT; p.ops.push_back(cp2);
+        p.cfg["alloc_yield"] = 0;
+    }
     p.cfg["soft_budget"] = 200000;
     p.cfg["hard_budget"] = 3000000;
 }
@@ -410,6 +437,7 @@ std::string op_text(const sim::Op &op) {
         case OP_CHECKPOINT: snprintf(b, sizeof b, "T%d: checkpoint (quiescent accounting check when all threads arrive)", op.thr); break;
         case OP_YIELD: snprintf(b, sizeof b, "T%d: yield", op.thr); break;
         case OP_REL_BURST: snprintf(b, sizeof b, "T%d: release the %lld oldest own blocks in a row", op.thr, (long long)op.a); break;
+        case OP_BULK: snprintf(b, sizeof b, "T%d: acquire %lld blocks of %lld bytes in a row and keep them", op.thr, (long long)op.a, (long long)op.b); break;
         default: snprintf(b, sizeof b, "?");
     }
     return b;
